@@ -46,7 +46,19 @@ def run_c01(ctx):
 
 
 def run_c03(ctx):
-    return l1_both(ctx)
+    import l2
+    res = l1_both(ctx)
+    cp = l2.corpus(ctx)
+    l2.c03_cli(ctx, res, cp["structured"], 60 if not ctx.thorough() else 400)
+    res.require(["l2:run"], "L2")
+    return res
+
+
+def run_c09(ctx):
+    import l2
+    res = l1_both(ctx)
+    l2.c09_cli(ctx, res, 40 if not ctx.thorough() else 300)
+    return res
 
 
 def run_c04(ctx):
@@ -54,7 +66,10 @@ def run_c04(ctx):
 
 
 def run_c05(ctx):
-    return l1_both(ctx)
+    import l2
+    res = l1_both(ctx)
+    l2.c05_cli(ctx, res, 200 if not ctx.thorough() else 1500)
+    return res
 
 
 def run_c14(ctx):
@@ -113,7 +128,7 @@ DBG_ASSUME = COMMON_ASSUMPTIONS + [
 
 PROPS = {
     "C09": {
-        "run": run_dbg,
+        "run": run_c09,
         "level": "exploration",
         "design_ref": "DESIGN.md section 4 C09",
         "level_text": "Differential runtime monitor: each generated terminating program is run plainly and under the debugger with a random script of execution-control/inspection commands (valid, boundary and malformed arguments) ending in quit or end of input; program output, consumed input, exit status and the complete final machine state must be identical. Sampled over programs and scripts.",
